@@ -556,6 +556,58 @@ func famDump(bin string, iters int) {
 	}
 	defer os.RemoveAll(dir)
 	hows := []string{"file", "stdin", "pipe"}
+	// structured cases (always): deep chains with sibling length-delimited fields that differ in -strings / -expand membership,
+	// and malformed payloads inside an expanded (or not expanded) nested message
+	for depth := 1; depth <= 8; depth++ {
+		leaf := []node{{fn: 1, wt: 2, str: true, b: []byte("ab")}, {fn: 2, wt: 2, str: true, b: []byte("cd")},
+			{fn: 3, wt: 2, kids: []node{{fn: 1, wt: 0, v: 7}}}, {fn: 4, wt: 2, kids: []node{{fn: 2, wt: 2, str: true, b: []byte("x")}}}}
+		ns := leaf
+		var chain [][]int
+		var prefix []int
+		for d := 0; d < depth; d++ {
+			ns = []node{{fn: 1, wt: 2, kids: ns}}
+		}
+		for d := 0; d < depth; d++ {
+			prefix = append(prefix, 1)
+			chain = append(chain, append([]int{}, prefix...))
+		}
+		at := func(fn ...int) []int { return append(append([]int{}, prefix...), fn...) }
+		data := encodeNodes(ns)
+		for pat := 0; pat < 8; pat++ {
+			expand := append([][]int{}, chain...)
+			var strs [][]int
+			if pat&1 != 0 {
+				strs = append(strs, at(1))
+			}
+			if pat&2 != 0 {
+				strs = append(strs, at(2))
+			}
+			if pat&4 != 0 {
+				expand = append(expand, at(3))
+			} else {
+				expand = append(expand, at(4))
+				strs = append(strs, at(4, 2))
+			}
+			dumpOne(bin, dir, data, expand, strs, hows[(depth+pat)%3], pat%4)
+		}
+		// a nested message whose payload is not a message: a lone key byte, an over-long declared length, a group marker
+		for bi, bad := range [][]byte{{0x08}, {0x0a, 0x05, 'a'}, {0x0b}, {0x08, 0x80}} {
+			inner := []node{{fn: 3, wt: 2, b: bad}, {fn: 2, wt: 0, v: 1}}
+			ns := inner
+			for d := 1; d < depth && d < 4; d++ {
+				ns = []node{{fn: 1, wt: 2, kids: ns}}
+			}
+			var chain2 [][]int
+			var pre []int
+			for d := 1; d < depth && d < 4; d++ {
+				pre = append(pre, 1)
+				chain2 = append(chain2, append([]int{}, pre...))
+			}
+			data := encodeNodes(ns)
+			dumpOne(bin, dir, data, append(chain2, append(append([]int{}, pre...), 3)), nil, hows[(depth+bi)%3]) // expanded: malformed
+			dumpOne(bin, dir, data, chain2, nil, hows[(depth+bi+1)%3])                                           // not expanded: just bytes
+		}
+	}
 	for it := 0; it < iters; it++ {
 		ns := genNodes(0)
 		data := encodeNodes(ns)
